@@ -110,7 +110,7 @@ CLAIMED = {
         "output labels declared or scraped, single/multi output storing, run = bare function over every construction/call split "
         "incl. cache hits, transformers for all sizes, dataclass nodes with defaults and factories). Generated python SOURCE "
         "for every signature description is wrapped by the real decorators and compared with the model and with the bare function.",
-   design="7/C17", technique="Coq proofs by induction over parameter lists / sizes / call histories + differential correspondence on generated source + oracle",
+   design="7/C17", technique="Coq proofs by induction over parameter lists / sizes / call histories + differential correspondence on generated source + oracle + Function.process_run_result / _outputs_to_run_return REGENERATED from function.py on every run and proved equal to the model (translator tie)",
    note="Full theorems hold for the code after fix commit 74b924f. CPython's parser/inspect are glue validated differentially; "
         "inputs_to_dataframe keeps a guard about ill-formed rows; caller-chosen names equal to run flags for inputs_to_dict / "
         "dataclass fields are outside (side condition stated in the theorem)."),
